@@ -294,6 +294,21 @@ Proof.
   specialize (IH y rest). simpl in *. lia.
 Qed.
 
+Lemma read_path_gen_S : forall rd f s,
+  read_path_gen rd (S f) s =
+  match rd s with
+  | Some (a, r) =>
+      match r with
+      | String c r1 =>
+          if Ascii.eqb c "." then
+            match read_path_gen rd f r1 with Some (l, r') => Some (a :: l, r') | None => None end
+          else Some ([a], r)
+      | EmptyString => Some ([a], r)
+      end
+  | None => None
+  end.
+Proof. reflexivity. Qed.
+
 (* generic: a reader [rd] that reads one encoded name back reads a dotted chain of them back *)
 Lemma read_path_gen_ok : forall (rd : string -> option (string * string)) (enc : string -> string) (ok : string -> bool),
   (forall x r, ok x = true -> stops r = true -> rd (enc x ++ r) = Some (x, r)) ->
@@ -302,14 +317,15 @@ Lemma read_path_gen_ok : forall (rd : string -> option (string * string)) (enc :
 Proof.
   intros rd enc ok Hrd. induction xs as [|y ys IH]; intros x fuel rest Hok Hr Hf.
   - destruct fuel as [|f]; [simpl in Hf; lia|]. simpl in Hok. apply Bool.andb_true_iff in Hok as [Hx _].
-    simpl join. simpl read_path_gen. rewrite (Hrd x rest Hx (ends_chain_stops _ Hr)).
+    change (join "." (map enc [x])) with (enc x). rewrite read_path_gen_S. rewrite (Hrd x rest Hx (ends_chain_stops _ Hr)).
     destruct rest as [|c r]; [reflexivity|]. simpl in Hr. apply Bool.andb_true_iff in Hr as [_ Hr].
     destruct (Ascii.eqb c "."); [discriminate | reflexivity].
   - destruct fuel as [|f]; [simpl in Hf; lia|].
     cbn [forallb] in Hok. apply Bool.andb_true_iff in Hok as [Hx Hys].
     change (join "." (map enc (x :: y :: ys))) with (enc x ++ String "." (join "." (map enc (y :: ys)))).
-    rewrite sapp_assoc. simpl read_path_gen. rewrite (Hrd x _ Hx eq_refl).
+    rewrite sapp_assoc.
     change (String "." (join "." (map enc (y :: ys))) ++ rest) with (String "." (join "." (map enc (y :: ys)) ++ rest)).
+    rewrite read_path_gen_S. rewrite (Hrd x (String "." (join "." (map enc (y :: ys)) ++ rest)) Hx eq_refl).
     cbv iota. rewrite Ascii.eqb_refl. rewrite IH; auto. simpl in Hf. lia.
 Qed.
 
